@@ -34,7 +34,7 @@ type CV struct {
 type modelReader struct {
 	o    *Obligation
 	solv *Solvers
-	pins []string
+	pins []Term
 	n    int
 	err  error
 }
@@ -56,7 +56,7 @@ func (m *modelReader) get(t Term) string {
 	}
 	q := m.o.Query
 	// make sure every symbol of t is declared: terms come from the same Exec, so they are
-	text := "(set-option :produce-models true)\n(set-logic ALL)\n" + m.o.queryWith(t) + strings.Join(m.pins, "\n") + "\n(check-sat)\n(get-value (" + t.S + "))\n"
+	text := "(set-option :produce-models true)\n(set-logic ALL)\n" + m.o.queryWith(t, m.pins) + "(check-sat)\n(get-value (" + t.S + "))\n"
 	_ = q
 	file := filepath.Join(m.solv.dir, fmt.Sprintf("mv%d.smt2", m.n))
 	os.WriteFile(file, []byte(text), 0o644)
@@ -77,14 +77,15 @@ func (m *modelReader) get(t Term) string {
 	// value is the last s-expr
 	e1 := sexprEnd(inner, 0)
 	val := strings.TrimSpace(inner[e1:])
-	m.pins = append(m.pins, fmt.Sprintf("(assert (= %s %s))", t.S, val))
+	m.pins = append(m.pins, Term{fmt.Sprintf("(= %s %s)", t.S, val), SBool})
 	return val
 }
 
 // queryWith rebuilds the query making sure the declarations needed by extra are present.
-func (o *Obligation) queryWith(extra Term) string {
+func (o *Obligation) queryWith(extra Term, pins []Term) string {
 	o2 := *o
-	o2.Hyps = append(append([]Term(nil), o.Hyps...), Term{"(= " + extra.S + " " + extra.S + ")", SBool})
+	o2.Hyps = append(append([]Term(nil), o.Hyps...), pins...)
+	o2.Hyps = append(o2.Hyps, Term{"(= " + extra.S + " " + extra.S + ")", SBool})
 	return o2.BuildQuery()
 }
 
@@ -166,6 +167,34 @@ func (m *modelReader) extract(x *Exec, st *State, t types.Type, v Value, depth i
 	case IfaceV:
 		tag, _ := parseSMTInt(m.get(u.Tag))
 		cv := &CV{Kind: "iface", Nil: tag == 0, T: t}
+		if wt := m.witnessFor(x, t); wt != nil && tag != 0 {
+			// build a witness object whose pure methods return what the model says
+			dt := x.P.lookupType(wt.Type)
+			st2, ok := dt.Underlying().(*types.Struct)
+			if !ok {
+				m.err = fmt.Errorf("witness type %s is not a struct", wt.Type)
+				return cv
+			}
+			box := &CV{Kind: "struct", T: dt}
+			for i := 0; i < st2.NumFields(); i++ {
+				fcv := &CV{Kind: "int", T: st2.Field(i).Type()}
+				for meth, fld := range wt.Fields {
+					if fld != st2.Field(i).Name() {
+						continue
+					}
+					key := expandKey(wt.Iface) + "." + meth
+					r := x.pureIfaceCall(st, key, u, nil, x.P.ifaceMethodSig(key))
+					if sc, ok := r.(Scalar); ok {
+						n, _ := parseSMTInt(m.get(sc.T))
+						fcv.Int = n
+					}
+				}
+				box.Fields = append(box.Fields, fcv)
+			}
+			cv.Dyn = dt
+			cv.Box = box
+			return cv
+		}
 		if tag != 0 {
 			x.P.mu.Lock()
 			if tag < 1 || int(tag) > len(x.P.tagTypes) {
@@ -544,7 +573,25 @@ func (b *concBuilder) build(st *State, cv *CV) Value {
 		}
 		r := b.ref()
 		x.storePtrNoCheck(st, PtrV{Kind: PHeap, Ref: r, Root: cv.Dyn}, b.build(st, cv.Box))
-		return IfaceV{tag, r}
+		iv := IfaceV{tag, r}
+		// pure interface methods of a witness object return its fields
+		if n, ok := cv.T.(*types.Named); ok && n.Obj().Pkg() != nil {
+			if wt := x.P.db.Witnesses[n.Obj().Pkg().Path()+"."+n.Obj().Name()]; wt != nil && cv.Box.Kind == "struct" {
+				if st2, ok := cv.Dyn.Underlying().(*types.Struct); ok && types.Identical(cv.Dyn, x.P.lookupType(wt.Type)) {
+					for meth, fld := range wt.Fields {
+						for i := 0; i < st2.NumFields(); i++ {
+							if st2.Field(i).Name() == fld && cv.Box.Fields[i].Kind == "int" {
+								key := expandKey(wt.Iface) + "." + meth
+								if rv, ok := x.pureIfaceCall(st, key, iv, nil, x.P.ifaceMethodSig(key)).(Scalar); ok {
+									st.assume(Eq(rv.T, IntLit(cv.Box.Fields[i].Int)))
+								}
+							}
+						}
+					}
+				}
+			}
+		}
+		return iv
 	}
 	panic("concBuilder: " + cv.Kind)
 }
@@ -742,15 +789,17 @@ func (P *Prog) evalConcrete(x0 *Exec, inputs []*CV, outs map[string]interface{})
 	for k, v := range rnames {
 		all[k] = v
 	}
-	env := &Env{x: x, st: post, old: pre, names: all}
 	for _, l := range x.c.Lets {
-		all[l.Name] = (&Env{x: x, st: pre, names: names}).eval(l.E)
+		v := (&Env{x: x, st: pre, names: names}).eval(l.E)
+		names[l.Name] = v
+		all[l.Name] = v
 	}
+	env := &Env{x: x, st: post, old: pre, names: all}
 	// preconditions must hold on the input, otherwise the model is outside the contract
 	for _, cl := range x.c.Clauses {
 		if cl.Kind == "requires" {
 			t := (&Env{x: x, st: pre, names: names}).evalBool(cl.E)
-			if !x.groundHolds(pre, t) {
+			if x.groundRefuted(pre, t) {
 				return nil, "the model's input does not satisfy requires [" + cl.Label + "] when evaluated concretely"
 			}
 		}
@@ -834,6 +883,30 @@ func (x *Exec) groundHolds(st *State, t Term) bool {
 		return false
 	}
 	o := &Obligation{Hyps: st.pc, Goal: t, decls: x.decls, prog: x}
+	r := x.solv.Solve(o.BuildQuery(), false)
+	return r.Result == "unsat"
+}
+
+
+func (m *modelReader) witnessFor(x *Exec, t types.Type) *Witness {
+	n, ok := t.(*types.Named)
+	if !ok || n.Obj().Pkg() == nil {
+		return nil
+	}
+	return x.P.db.Witnesses[n.Obj().Pkg().Path()+"."+n.Obj().Name()]
+}
+
+
+// groundRefuted: the formula is definitely false on the concrete state (formulas that mention
+// state the replay does not reconstruct, e.g. package-level variables, are not refuted).
+func (x *Exec) groundRefuted(st *State, t Term) bool {
+	if t.IsFalse() {
+		return true
+	}
+	if t.IsTrue() {
+		return false
+	}
+	o := &Obligation{Hyps: st.pc, Goal: Not(t), decls: x.decls, prog: x}
 	r := x.solv.Solve(o.BuildQuery(), false)
 	return r.Result == "unsat"
 }
